@@ -213,7 +213,32 @@ def positions(ix, shape):
     return pos, drop
 
 
+def gen_long(rng, gap):
+    """One long subarea of `gap` intervals (plus, sometimes, a short one sharing its last tie point): the
+    interpolation variable s must reach exactly 1 at the far tie point for EVERY subarea size, which only
+    particular sizes (49, 98, 103, 107, 161, ... intervals) break when s is computed carelessly."""
+    t = [0, gap]
+    if rng.random() < 0.3:
+        t.append(gap + rng.choice([2, 3, 5]))
+    nn = t[-1] + 1
+    has_bounds = rng.random() < 0.4
+    m = rng.choice(["linear", "linear", "quadratic"])
+    p = dict(extra=[], den=1, has_bounds=has_bounds, observe="bounds" if has_bounds and rng.random() < 0.5 else "coord",
+             recv=rng.choice(["array", "data"]), tp_dtype="f8", precision="64",
+             m=m, t=[t], n=[nn], pos=[0], tp=rand_ints(rng, [len(t)]).tolist())
+    if has_bounds:
+        p["btp"] = rand_ints(rng, [len(t)]).tolist()
+    if m == "quadratic":
+        p["w"] = dict(span=[], values=rand_ints(rng, [n_subareas(t)], -12, 12).tolist(), order=[0]) if rng.random() < 0.7 else None
+    obs_shape = [nn] + ([2] if p["observe"] == "bounds" else [])
+    p["ix"] = "last" if rng.random() < 0.5 else [["s", None, None, None] for _ in obs_shape]
+    return p
+
+
 def gen(rng, tier, n):
+    # every subarea size once (quick: up to 256 intervals, thorough: up to 1024)
+    for gap in range(7, 257 if tier == "quick" else 1025):
+        yield mk(gen_long(rng, gap))
     for _ in range(n):
         two = rng.random() < 0.4
         singleton = rng.random() < 0.04
@@ -223,8 +248,9 @@ def gen(rng, tier, n):
         recv = rng.choices(["array", "data", "coord", "file"], [4, 3, 2, 2])[0]
         den = rng.choice([1, 1, 2, 4, 8])
         p = dict(extra=extra, den=den, has_bounds=has_bounds, observe=observe, recv=recv,
-                 tp_dtype=rng.choice(["f8", "f8", "i4", "f4"]) if den == 1 else "f8",
+                 tp_dtype=rng.choice(["f8", "f8", "i4", "f4", "i1", "u1", "i2"]) if den == 1 else "f8",
                  precision=rng.choice(["64", "64", "32", None]))
+        lo, hi = {"i1": (-120, 120), "u1": (0, 250), "i2": (-30000, 30000)}.get(p["tp_dtype"], (-40, 40))
         if two:
             which = rng.randrange(2) if singleton else -1
             t0, n0 = gen_t(rng, which == 0)
@@ -233,18 +259,18 @@ def gen(rng, tier, n):
             nd = len(extra) + 2
             pos = sorted(rng.sample(range(nd), 2))
             p.update(m="bi_linear", t=[t0, t1], n=[n0, n1], pos=pos,
-                     tp=rand_ints(rng, extra + [len(t0), len(t1)]).tolist())
+                     tp=rand_ints(rng, extra + [len(t0), len(t1)], lo, hi).tolist())
             if has_bounds:
-                p["btp"] = rand_ints(rng, extra + [len(t0), len(t1)]).tolist()
+                p["btp"] = rand_ints(rng, extra + [len(t0), len(t1)], lo, hi).tolist()
             ushape = ushape_of(p)
         else:
             t, nn = gen_t(rng, singleton)
             m = rng.choice(["linear", "linear", "quadratic", "quadratic", "quadratic"])
             nd = len(extra) + 1
             pos = [rng.randrange(nd)]
-            p.update(m=m, t=[t], n=[nn], pos=pos, tp=rand_ints(rng, extra + [len(t)]).tolist())
+            p.update(m=m, t=[t], n=[nn], pos=pos, tp=rand_ints(rng, extra + [len(t)], lo, hi).tolist())
             if has_bounds:
-                p["btp"] = rand_ints(rng, extra + [len(t)]).tolist()
+                p["btp"] = rand_ints(rng, extra + [len(t)], lo, hi).tolist()
             if m == "quadratic" and rng.random() < 0.85:
                 # w spans the subarea dimension and any subset of the other dimensions, in any order
                 span = [e for e in range(len(extra)) if rng.random() < 0.5]
@@ -346,7 +372,7 @@ def _canon(arr, p):
 
 
 def _np_dtype(p):
-    return {"f8": "f8", "f4": "f4", "i4": "i4"}[p["tp_dtype"]]
+    return {"f8": "f8", "f4": "f4", "i4": "i4", "i1": "i1", "u1": "u1", "i2": "i2"}[p["tp_dtype"]]
 
 
 def build_arrays(p):
@@ -798,6 +824,9 @@ def classify(c):
     if not f.startswith("subspace"):
         if w_dims_permuted(p):
             return "interpolation-parameter-dimensions-permuted"
+        if p.get("tp_dtype") in ("i1", "u1", "i2"):
+            # fixed in /repo (known_findings.json): reported again if it returns
+            return "small-integer-tie-points-interpolated-in-integer-arithmetic"
         return None
     shape = ushape_of(p) + ([2 * len(p["t"])] if p["observe"] == "bounds" else [])
     if isinstance(ix, list):
